@@ -10,6 +10,7 @@ start=$(date +%s)
 out=$(VERIF_REPO=$W VERIF_BUILD_ROOT=$BR VERIF_EVIDENCE_DIR=$BR/evidence ./check "$ID" --tier quick 2>&1); rc=$?
 end=$(date +%s)
 git -C "$W" checkout -q -- .
+echo "$out" | grep -v "^\[" | cut -c1-600 | head -200 > "$D/check_output.txt"
 viol=$(echo "$out" | grep -c "^VIOLATION")
 first=$(echo "$out" | grep -m1 "oracle:" | cut -c1-400)
 python3 - "$D" "$ID" "$rc" "$viol" "$((end-start))" "$first" <<'PY'
